@@ -8,7 +8,7 @@ head=$(git -C /repo rev-parse HEAD)
 mkdir -p /tmp/scratch
 for n in $names; do
   prop=${n%%-*}
-  case "$n" in *-2) wt=/tmp/seed2/$prop;; *-3) wt=/tmp/seed3/$prop;; *-4) wt=/tmp/seed4/$prop;; *-5) wt=/tmp/seed5/$prop;; *-6) wt=/tmp/seed6/$prop;; *-7) wt=/tmp/seed7/$prop;; *-8) wt=/tmp/seed8/$prop;; *) wt=/tmp/seed/$prop;; esac
+  case "$n" in *-2) wt=/tmp/seed2/$prop;; *-3) wt=/tmp/seed3/$prop;; *-4) wt=/tmp/seed4/$prop;; *-5) wt=/tmp/seed5/$prop;; *-6) wt=/tmp/seed6/$prop;; *-7) wt=/tmp/seed7/$prop;; *-8) wt=/tmp/seed8/$prop;; *-9) wt=/tmp/seed9/$prop;; *) wt=/tmp/seed/$prop;; esac
   [ -d "$wt" ] || { echo "$n: no worktree"; continue; }
   if [ "$(git -C $wt rev-parse HEAD)" != "$head" ]; then
     p=/tmp/scratch/rebase_$n.patch
